@@ -1,8 +1,8 @@
 """C04 - every operation terminates; losing the connection fails all pending work."""
 import connlane as L
 
-MC = {"quick": [("mc-faults", "MCLdapConn", "MCConn_c04_quick.cfg", 900, 8),
-                ("mc-faults-stall", "MCLdapConn", "MCConn_c04_stall.cfg", 900, 8)],
+# (the quick instance is the one with a peer that may stop reading: its behaviours include those of MCConn_c04_quick.cfg)
+MC = {"quick": [("mc-faults-stall", "MCLdapConn", "MCConn_c04_stall.cfg", 900, 8)],
       "thorough": [("mc-faults", "MCLdapConn", "MCConn_c04_quick.cfg", 900, 12),
                    ("mc-faults-stall", "MCLdapConn", "MCConn_c04_stall.cfg", 900, 12),
                    ("mc-liveness", "MCLdapConn", "MCConn_c04_live.cfg", 3400, 12)]}
